@@ -204,6 +204,8 @@ func initArrayList() {
 				if value.Truthy(isEqual) {
 					self.RemoveAt(i)
 					removed = true
+					// the next element moved into slot i: examine it too
+					i--
 				}
 			}
 
